@@ -210,6 +210,15 @@ def unit_mader():
                         pt = {s_.name: float(sp.sympify(o['cex_raw'].get(s_.name, 1))) for s_ in (t, x, dx, p, d, up)}
                         o['replay'] = MADER_NATIVE % dict(pt=pt, q=n, kind=kind)
                     o.pop('cex_raw', None); O.append(o)
+    from vc import propkit
+    items = []; exp = []
+    for xl in (1.0, 2.5, 2.4951, 4.0):
+        pt = {t: sp.Rational('6.25e-6'), x: sp.Rational(str(xl)), dx: sp.Rational('0.05'), p: sp.Integer(3 * 10 ** 11), d: sp.Integer(8 * 10 ** 5), up: sp.Integer(10 ** 4)}
+        ex = propkit.expected_from_paths([q_ for q_ in paths if q_.outcome == 'return'], pt)
+        if ex is None: continue
+        items.append({'module': 'exactpack.solvers.mader.rarefaction', 'name': 'rare', 'args': [6.25e-6, xl, 0.05, 3.0e11, 8.0e5, 3.0, 1.0e4]}); exp.append(ex)
+    n_, mm = propkit.tv_functions(items, exp, rtol=1e-9)
+    propkit.tv_report(res, 1, n_, mm)
     O.append(core.structural('C17/mader/branches', all(kinds[k] == 1 for k in kinds), 'code paths per documented region: %s' % kinds, None, 'path-analysis', 'each documented region (constant state, transition cell, fan) is served by exactly one code path (vacuity / partition)'))
     return res
 
